@@ -497,6 +497,23 @@ Theorem c10_parse_program_total : forall fs root,
 Proof. exact parse_program_total. Qed.
 Print Assumptions c10_parse_program_total.
 
+(** the same with the DECIDABLE form of the hypotheses, which Judge/JParser.v evaluates on every
+    program it replays against ParseFrugal ([parse_program_checked] answers, in one pass, whether the
+    PEG interpreter gave a verdict on every text and every parsed file has grammatical names
+    ([file_names_okb]), together with the result): whenever the check says yes, [parse_program] is
+    that result, it is a tree or an error, and an accepted tree is validated all the way down *)
+Theorem c10_parse_program_checked_total : forall fs root r,
+  parse_program_checked fs root = Some (true, r) ->
+  parse_program fs root = fres_of r
+  /\ ((exists t, parse_program fs root = FOk t) \/ parse_program fs root = FErr)
+  /\ forall t, parse_program fs root = FOk t -> CompilerTotalProofs.wellvalidated (CV.reduce_tree t).
+Proof. exact parse_program_checked_total. Qed.
+Print Assumptions c10_parse_program_checked_total.
+
+Theorem c10_names_check_sound : forall f, file_names_okb f = true -> CVP.file_names_ok f.
+Proof. exact file_names_okb_sound. Qed.
+Print Assumptions c10_names_check_sound.
+
 (** what [validate] accepts satisfies the checks the repository's repairs added: every extended
     service exists and no extends chain is circular; every thrown type is an exception; field ids and
     field names of every struct, union and exception are pairwise distinct; every type reference is
@@ -689,6 +706,13 @@ Proof.
 Qed.
 
 (** the model of ParseFrugal resolves includes relative to the including file and detects cycles *)
+Example c10_parse_program_checked_nonvacuous :
+  exists t, parse_program_checked [(main_frugal, pf_inc_extends_root_ok); (base_frugal, pf_inc_extends_base)] main_frugal
+            = Some (true, CV.POk t)
+  /\ exists m, parse_program_checked [(main_frugal, pf_inc_extends_root); (base_frugal, pf_inc_extends_base)] main_frugal
+               = Some (true, CV.PErr m).
+Proof. eexists. split; [vm_compute; reflexivity|]. eexists. vm_compute. reflexivity. Qed.
+
 Example c10_includes_nonvacuous :
   is_fok (parse_program [(main_frugal, idl "include ""sub/inc.thrift""");
                          ([bytes_of_string "sub"; bytes_of_string "inc.thrift"], idl "include ""../base.frugal""");
